@@ -231,7 +231,8 @@ def _is_false(node):
 
 
 def _has_call(t, dotted):
-    return any(x[0] == 'call' and x[1] in dotted for x in subterms(t))
+    # a direct call, or the function handed to a pool map / partial
+    return any((x[0] == 'call' and x[1] in dotted) or (x[0] in ('ref', 'func') and x[1] in dotted) for x in subterms(t))
 
 
 def find_loop(ev, dotted, kind='while'):
@@ -1161,3 +1162,42 @@ def rule_no_clobber(ctx, rid, fi, extractor_q, contexts):
     else:
         ctx.passed(rid, fi, c, '%d extraction path(s) returning a view of the input, %d in-place update(s) of the '
                    'extraction input in %s' % (len(alias_paths), len(inplace), fi.name))
+
+
+def rule_through_layer_loop(ctx, rid, fi, extractors, context=None, allow_sift_call=False):
+    """Every way the variant returns has run its layer loop: a fast path that hands back something else (the input
+    for a 'negligible' signal, a classic sift for 'zero noise') is not the peeling of one extraction per layer."""
+    ev = Evaluator(ctx.P)
+    exits = ev.run(fi, context=context or {})
+    ctx.paths += len(exits)
+    loops = find_loop(ev, set(extractors))
+    c = 'every return path has gone through the layer loop'
+    if len(loops) != 1:
+        ctx.undecided(rid, fi, c, 'expected one layer loop, found %d' % len(loops))
+        return
+    loop = loops[0]
+    bad = None
+    n = 0
+    for e in exits:
+        if e.kind != 'return':
+            continue
+        n += 1
+        if any(ls.node is loop for ls in e.state.loops):
+            continue
+        v = e.value
+        if allow_sift_call and v[0] == 'call' and v[1] == 'emd.sift.sift':
+            kw = dict(v[3])
+            missing = [f for f in ('sift_thresh', 'max_imfs', 'imf_opts', 'envelope_opts', 'extrema_opts')
+                       if kw.get(f) != S(f)]
+            if not missing:
+                continue
+            bad = (e, 'a path returns the classic sift without %s' % ', '.join(missing))
+            continue
+        bad = (e, 'a path returns %s without running the layer loop (conditions: %s)'
+               % (show(v)[:50], '; '.join('%s=%s' % (show(cn)[:50], t) for cn, t, _ in e.state.conds[-2:]) or 'none'))
+    if bad:
+        ctx.violation(rid, fi, c, bad[1], node=bad[0].node, path=trace_tail(bad[0].state, 6))
+    elif n == 0:
+        ctx.undecided(rid, fi, c, 'no return path')
+    else:
+        ctx.passed(rid, fi, c, '%d return path(s)' % n)
